@@ -391,6 +391,14 @@ def mmap_gate(ctx):
                   "kept only for uncompressed, on-disk, raw files", "mmap_mode is kept under %s" % conds)
     nul = [a for a in sets if is_const(a.value, None)]
     ctx.check(bool(nul), nul[0] if nul else v, "and nulled first whenever a mode was requested")
+    for a in nul:
+        fc = cond_facts([c_ for c_ in gv.conditions_at(gv.nodes_of(a)) if "mmap_mode" in unparse(c_[1])])
+        ctx.check(fc == [("mmap_mode is not None", True)] or fc == [("mmap_mode is None", False)], a, "the validation branch is entered exactly when a mode was requested", "the mode is validated under %s: a requested mode skips the validation (a compressed or in-memory file would be memory-mapped)" % fc)
+    rf = ctx.repo.func(NPU, "_is_raw_file")
+    rr = [r for r in nodes_of_type(rf, ast.Return)]
+    un = [a for a in nodes_of_type(rf, ast.Assign) if isinstance(a.value, ast.Call) and call_name(a.value) == "getattr" and const_value(a.value.args[1]) == "raw"]
+    ok = len(rr) == 1 and isinstance(rr[0].value, ast.Call) and call_name(rr[0].value) == "isinstance" and unparse(rr[0].value.args[1]) == "io.FileIO" and bool(un) and dotted(rr[0].value.args[0]) == un[0].targets[0].id
+    ctx.check(ok, rr[0] if rr else rf, "a file is 'raw' when it, or the raw stream it buffers, is an io.FileIO (files from open() are buffered)", "_is_raw_file no longer looks through the buffering layer: no file opened with open() is ever memory-mapped")
 
 
 def reduce(ctx):
@@ -572,6 +580,8 @@ def run(ctx):
     ctx.run("C19.INTERCEPT", "R-TABLE/R-ORDER", intercept)
     ctx.run("C19.META", "R-FLOW", meta)
     ctx.run("C19.IO-DUAL", "R-DUAL", io_dual)
+    from . import zf
+    ctx.run("C14.EXACT", "R-ORDER", zf.exact)
     ctx.run("C19.ALIGN", "R-ARITH", align)
     ctx.run("C19.ORDER", "R-DUAL", order)
     ctx.run("C19.BYTEORDER", "R-ORDER", byteorder)
